@@ -213,7 +213,15 @@ def xmatch(
     return res[0]
 
 
-_vect_get_type_id = np.vectorize(_get_type_id, otypes=[int])
+@functools.lru_cache(None)
+def _get_type_id_vectorize():
+    return np.vectorize(_get_type_id, otypes=[int])
+
+
+def _vect_get_type_id(*args, **kwargs):
+    # Built on demand: once called, a vectorized function kept as a module
+    # attribute holds a ufunc that cannot be pickled (e.g., by dill).
+    return _get_type_id_vectorize()(*args, **kwargs)
 
 
 def args_parser_match_array(val, arr, match_type=1):
